@@ -123,6 +123,13 @@ fn decode_loop(
     let mut total_bytes_read = 0;
 
     loop {
+        #[cfg(feature = "verif-hooks")]
+        saphyr_parser::verif::emit(saphyr_parser::verif::VerifEvent::DecodeIter {
+            bytes_read: total_bytes_read,
+            input_len: input.len(),
+            out_len: output.len(),
+            out_cap: output.capacity(),
+        });
         match decoder.decode_to_string_without_replacement(&input[total_bytes_read..], output, true)
         {
             // If the input is empty, we processed the whole input.
